@@ -31,6 +31,9 @@ TRUSTED_BASE = [
 ]
 
 
+TIMEOUT_SLACK = float(os.environ.get("VP_TIMEOUT_SLACK", "2"))
+
+
 def sh(cmd, timeout, cwd=None, mem_gb=12, stdout_path=None):
     """Run cmd; returns (rc, stdout, stderr, seconds). rc=-9 on timeout."""
     def lim():
@@ -279,11 +282,15 @@ def run_job_once(job, tier, verbose=False, keep=None):
         c = cbmc_cmd(job, gb)
         cmds.append(c)
         res["checker_cmd"] = " && ".join(" ".join(x) for x in cmds).replace(work, "$W")
-        rc, so, se, dt = sh(c, job["timeout"] if tier == "quick" else job.get("timeout_thorough", job["timeout"] * 3),
-                            cwd=work, stdout_path=out, mem_gb=job.get("mem_gb", 12))
+        # a job's "timeout" is its budget on a quiet machine; the limit actually enforced leaves room for a loaded one
+        # (a timeout is a machinery error, exit 2 - it must not be caused by other processes competing for the cores)
+        limit = max(job["timeout"], 300) * TIMEOUT_SLACK
+        if tier != "quick":
+            limit = max(limit, job.get("timeout_thorough", job["timeout"] * 3))
+        rc, so, se, dt = sh(c, limit, cwd=work, stdout_path=out, mem_gb=job.get("mem_gb", 12))
         res["solver_s"] = round(dt, 2)
         if rc == -9:
-            raise MachineryError("cbmc timeout after %ss" % job["timeout"])
+            raise MachineryError("cbmc timeout after %ss" % limit)
         results, msgs, status = parse_cbmc_json(out)
         if status is None or (not results and status != "success"):
             errs = [t for (k, t) in msgs if k in ("ERROR",)] or [t for (k, t) in msgs][-5:]
